@@ -89,6 +89,7 @@ McType(op, sub) ==
     [] op \in {"cvwait", "cvwaitfor"} /\ sub = 2 -> "CONDVAR_WAIT"
     [] op \in {"cvwait", "cvwaitfor"} /\ sub = 3 -> "MUTEX_WAIT"
     [] op = "sig" -> "CONDVAR_SIGNAL"               [] op = "bcast" -> "CONDVAR_BROADCAST"
+    [] op = "join" -> "ActorJoin"                   [] op = "create" -> "ActorCreate"
     [] OTHER -> "?"
 CheckerAgrees(ln, base, new) ==
   LET a == ln.a   op == Cur(P, base, a)   t == McType(op.op, base.sub[a]) IN
@@ -98,6 +99,7 @@ CheckerAgrees(ln, base, new) ==
   /\ (t \in {"SEM_ASYNC_LOCK", "SEM_UNLOCK"} => ln.cobj = op.o /\ ln.ccap = new.val[op.o] - Len(new.sq[op.o]))   \* SemaphoreObserver
   /\ (t = "SEM_WAIT" => ln.cobj = op.o /\ ln.ccap = new.val[op.o])
   /\ (t \in {"BARRIER_ASYNC_LOCK", "BARRIER_WAIT", "iSend", "iRecv"} => ln.cobj = op.o)
+  /\ (t \in {"ActorJoin", "ActorCreate"} => ln.ctgt = op.o)
   /\ (t = "WaitComm" => LET c == IF op.op = "wait" THEN base.hnd[a][op.o].c ELSE base.cur[a] IN
                           ln.cobj = new.act[c].mb /\ ln.cfrom = new.act[c].src /\ ln.cto = new.act[c].dst)
 
